@@ -45,6 +45,8 @@ def gen_value(rng, feat, depth=0, placeholders=None):
 
 
 def gen_objdef(rng, feat, placeholders=None):
+    if feat.get('chain_objects') and rng.random() < 0.4:
+        return {'class': 'tc_verif.lab.runtime.LabChainObj', 'kwargs': {'a': rng.choice([1, 'z', [1, 2]])}}
     if feat.get('set_objects') and rng.random() < 0.4:
         return {'class': 'tc_verif.lab.runtime.LabObjSet', 'kwargs': {'tags': rng.sample(['alpha', 'beta', 'gamma', 'delta', 'eps', 'zeta', 'eta'], rng.randint(2, 6))}}
     if rng.random() < 0.7:
@@ -261,6 +263,12 @@ def gen_spec(rng: random.Random, feat=None):
     spec['fnames'] = fnames
     spec['extra_mounts'] = extra_mounts
     spec['free_ns_words'] = list(ns_words)
+    if placeholders:
+        for f in files.values():
+            for pd in f['parts'].values():
+                for u in pd.get('uses', []):
+                    if u.get('file') and rng.random() < 0.25:
+                        u['via_placeholder'] = True     # the path is written as {CFGROOT}/<file>: found only if global_vars are applied
     return spec
 
 
@@ -420,7 +428,8 @@ def gen_root(rng, spec, feat=None, file_index=0):
     if feat['contexts'] and rng.random() < 0.6:
         add_context(rng, spec, root, feat)
     if spec.get('placeholders'):
-        root['global_vars'] = {'kind': rng.choice(['dict', 'object']), 'values': {'A': rng.choice(['va', 'vb', '1']), 'DIR': '/data/x', 'B': 'bb'}}
+        root['global_vars'] = {'kind': rng.choice(['dict', 'object']), 'values': {'A': rng.choice(['va', 'vb', '1']), 'DIR': '/data/x', 'B': 'bb',
+                                                                                 'CFGROOT': '<LABROOT>'}}
     return root
 
 
